@@ -25,7 +25,13 @@ class Case:
         rng = np.random.default_rng(job["seed"])
         self.rng = rng
         f = np.array([2.0, 1.4, 1.0, 1.0, 1.0, 1.0, 1.4, 2.0])
-        h = [80.0*f*rng.uniform(0.9, 1.1, 8) for _ in range(3)]
+        fs = {6: f[[0, 1, 2, 5, 6, 7]], 8: f,
+              10: np.r_[f[:4], 1.0, 1.0, f[4:]]}
+        # (cell counts differ between the directions in most cases)
+        shp = [(8, 8, 8), (8, 6, 10), (10, 8, 6), (6, 10, 8)][
+            job["seed"] % 4]
+        self.re_scale = 1.0
+        h = [80.0*fs[n]*rng.uniform(0.9, 1.1, n) for n in shp]
         self.grid = emg3d.TensorMesh(h, [-a.sum()/2 for a in h])
         self.case = job["case"]
         self.mapping = job["mapping"]
@@ -44,19 +50,23 @@ class Case:
             kinds, self.freqs = [job["src"][0]], [1.0, 2.5]
         else:
             kinds, self.freqs = job["src"][:2], [1.5]
+        # everything stays inside the second to second-last cell
+        lim = np.array([0.9*min(abs(n_[1]), abs(n_[-2])) for n_ in (
+            self.grid.nodes_x, self.grid.nodes_y, self.grid.nodes_z)])
         self.sources = {}
         for i, k in enumerate(kinds):
-            x, y, z = rng.uniform(-60, 60, 3)
+            x, y, z = rng.uniform(-0.15, 0.15, 3)*lim
             az, el = rng.uniform(-180, 180), rng.uniform(-40, 40)
             if k == "ed":
-                d = rng.uniform(20, 50, 3)
+                d = rng.uniform(0.05, 0.12, 3)*lim
                 s = emg3d.TxElectricDipole((x-d[0], x+d[0], y-d[1], y+d[1],
                                             z-d[2], z+d[2]))
             elif k == "ep":
                 s = emg3d.TxElectricPoint((x, y, z, az, el))
             elif k == "ew":
-                pts = np.array([[x-60, y-20, z], [x, y+30, z+20],
-                                [x+50, y-10, z-10]])
+                pts = np.array([x, y, z]) + np.array(
+                    [[-0.14, -0.05, 0.0], [0.0, 0.07, 0.05],
+                     [0.12, -0.03, -0.03]])*lim
                 s = emg3d.TxElectricWire(pts)
             else:
                 s = emg3d.TxMagneticDipole((x, y, z, az, el))
@@ -66,12 +76,14 @@ class Case:
             az, el = rng.uniform(-180, 180), rng.uniform(-40, 40)
             cls = emg3d.RxElectricPoint if k == "e" else emg3d.RxMagneticPoint
             if rel:
-                d = (rng.choice([-1, 1])*rng.uniform(120, 220),
-                     rng.uniform(-100, 100), rng.uniform(-40, 40))
+                d = (rng.choice([-1, 1])*rng.uniform(0.35, 0.55)*lim[0],
+                     rng.uniform(-0.4, 0.4)*lim[1],
+                     rng.uniform(-0.15, 0.15)*lim[2])
                 self.receivers[f"Rx-{i+1}"] = cls((*d, az, el), relative=True)
             else:
-                p = (rng.choice([-1, 1])*rng.uniform(120, 250),
-                     rng.uniform(-150, 150), rng.uniform(-60, 60))
+                p = (rng.choice([-1, 1])*rng.uniform(0.45, 0.9)*lim[0],
+                     rng.uniform(-0.6, 0.6)*lim[1],
+                     rng.uniform(-0.25, 0.25)*lim[2])
                 self.receivers[f"Rx-{i+1}"] = cls((*p, az, el))
         self.mask = rng.random((len(self.sources), NR, len(self.freqs))) < 0.75
         if job["obs"] == "full":
@@ -101,25 +113,37 @@ class Case:
                          **kw)
         if self.observed is not None:
             s.data['observed'][...] = self.observed
-            if nz == "array":
-                s.noise_floor = 1e-15*np.array([1.0, 2.0, 3.0])[None, :, None] \
-                    * np.ones(s.shape)
-                s.relative_error = 0.03 + 0.02*np.arange(
-                    s.shape[2])[None, None, :]*np.ones(s.shape)
-            elif nz == "std":
-                s.standard_deviation = 1e-15 + 0.05*np.abs(
-                    np.where(np.isfinite(self.observed), self.observed, 1.0))
+        self.apply_noise(s)
         return s
 
-    def simulation(self, m=None, gridding="same"):
+    def apply_noise(self, s):
+        """Noise settings of the job, relative error scaled by re_scale."""
+        import numpy as np
+        nz = self.job["noise"]
+        k = self.re_scale
+        if self.observed is None:
+            return
+        if nz == "array":
+            s.noise_floor = 1e-15*np.array([1.0, 2.0, 3.0])[None, :, None] \
+                * np.ones(s.shape)
+            s.relative_error = k*(0.03 + 0.02*np.arange(
+                s.shape[2])[None, None, :]*np.ones(s.shape))
+        elif nz == "std":
+            s.standard_deviation = 1e-15 + k*0.05*np.abs(
+                np.where(np.isfinite(self.observed), self.observed, 1.0))
+        else:
+            s.relative_error = k*0.05
+
+    def simulation(self, m=None, gridding="same", survey=None):
         import numpy as np
         import emg3d
         kw = {}
         if gridding == "input":
-            hc = [np.ones(8)*a.sum()/8 for a in self.grid.h]
+            hc = [np.ones(a.size)*a.sum()/a.size for a in self.grid.h]
             kw["gridding_opts"] = emg3d.TensorMesh(hc, self.grid.origin)
         return emg3d.Simulation(
-            self.survey(), self.model(m), max_workers=1, gridding=gridding,
+            self.survey() if survey is None else survey, self.model(m),
+            max_workers=1, gridding=gridding,
             receiver_interpolation='linear', tqdm_opts={'disable': True},
             verb=-1,
             solver_opts={'tol': 1e-10, 'tol_gradient': 1e-10, 'maxit': 200,
@@ -304,6 +328,12 @@ def observe_gradient(case, ndir=2):
     notes = []
     sim = case.simulation()
     phi = float(sim.misfit)
+    if case.job["seed"] % 2:
+        # a J^T w product with some other w before the gradient is asked for
+        # the first time: the gradient is still that of the misfit
+        w = (case.rng.standard_normal(sim.survey.shape) +
+             1j*case.rng.standard_normal(sim.survey.shape))*1e-12
+        _ = sim.jtvec(w)
     g = np.asarray(sim.gradient)
     want_shape = ((case.nrows,) if case.nrows > 1 else ()) + tuple(
         case.grid.shape_cells)
@@ -320,7 +350,7 @@ def observe_gradient(case, ndir=2):
             for r in range(case.nrows):
                 if r != keep:
                     d[r] = 0.0
-        h = 1e-4
+        h = 2e-5
         pp = float(case.simulation(case.m0 + h*d).misfit)
         pm = float(case.simulation(case.m0 - h*d).misfit)
         fd = (pp - pm)/(2*h)
@@ -330,6 +360,26 @@ def observe_gradient(case, ndir=2):
             notes.append(f"direction {k}: <gradient, d> = {ip:.8e}, central "
                          f"difference of the misfit = {fd:.8e} (misfit "
                          f"{phi:.6e})")
+    # a survey object that served another simulation's misfit, noise settings
+    # changed since, a NEW simulation on it: gradient of ITS misfit
+    sv = case.survey()
+    _ = case.simulation(survey=sv).misfit
+    case.re_scale = 2.0
+    case.apply_noise(sv)
+    s2 = case.simulation(survey=sv)
+    p2 = float(s2.misfit)
+    g2 = np.asarray(s2.gradient).reshape(case.m0.shape)
+    d = case.direction()
+    h = 2e-5
+    fd = (float(case.simulation(case.m0 + h*d).misfit) -
+          float(case.simulation(case.m0 - h*d).misfit))/(2*h)
+    ip = float(np.sum(g2*d))
+    if not abs(fd - ip) <= 1e-4*max(abs(ip), 1e-3*np.linalg.norm(g2) *
+                                    np.linalg.norm(d)):
+        notes.append(f"new simulation on a used survey after a change of the "
+                     f"noise settings: <gradient, d> = {ip:.8e}, central "
+                     f"difference of the misfit = {fd:.8e} (misfit {p2:.6e})")
+    case.re_scale = 1.0
     # the same Simulation object after an in-place model update and a clean:
     # the gradient of the new model (= a fresh simulation's)
     m1 = case.m0 + (0.2*np.abs(case.m0) if not case.mapping.startswith("L")
@@ -368,7 +418,7 @@ def observe_jvec(case, gridding="same"):
     if jv.shape != sim.survey.shape:
         return [f"jvec shape {jv.shape}"]
     if gridding == "same":
-        h = 1e-4
+        h = 2e-5
         sp = case.simulation(case.m0 + h*v)
         sp.compute()
         sm = case.simulation(case.m0 - h*v)
